@@ -310,7 +310,23 @@ func (c05) Case(c *core.Ctx) {
 		}
 		c.Count("ambient:custom-decoder")
 	}
-	for _, e := range append(append([]encT{}, encs...), shapeEncs[:6]...) {
+	if r.Intn(3) == 0 {
+		// decoder options are no business of the encoders' validity check either
+		mxj.HandleXMPPStreamTag(r.Intn(2) == 0)
+		mxj.CoerceKeysToLower(r.Intn(2) == 0)
+		mxj.DecodeSimpleValuesAsMap(r.Intn(2) == 0)
+		mxj.IncludeTagSeqNum(r.Intn(2) == 0)
+		c.Count("ambient:decoder-options-under-validity-check")
+	}
+	mStream := mxj.Map{"stream": map[string]interface{}{"a": ss[0], "b": map[string]interface{}{"#text": ss[1], "-c": ss[2]}}}
+	msStream := mxj.MapSeq{"stream": map[string]interface{}{"a": map[string]interface{}{"#text": ss[0], "#seq": 0}, "b": map[string]interface{}{"#text": ss[1], "#seq": 1}}}
+	streamEncs := []encT{
+		{"Map.Xml(root named stream)", func() ([]byte, error) { return mStream.Xml() }},
+		{"Map.XmlIndent(root named stream)", func() ([]byte, error) { return mStream.XmlIndent("", indent) }},
+		{"MapSeq.Xml(root named stream)", func() ([]byte, error) { return msStream.Xml() }},
+		{"MapSeq.XmlIndent(root named stream)", func() ([]byte, error) { return msStream.XmlIndent("", indent) }},
+	}
+	for _, e := range append(append(append([]encT{}, encs...), shapeEncs[:6]...), streamEncs...) {
 		out, err := e.f()
 		if err != nil {
 			c.Count("clause3:error-returned")
